@@ -753,8 +753,15 @@ func (e *engine) foldEvents(g *gnode, ev []string, o *Out) {
 		case "leave":
 			f.left = true
 		case "unreach":
+			if f.left {
+				o.Fail("C04", "liveness-event-for-left-node", x+" (the routing table would show a departed node as unreachable)")
+			}
 			f.unrch = true
 		case "reach":
+			if f.left {
+				o.Fail("C04", "liveness-event-for-left-node", x+" (the syncer sets a departed node ACTIVE again; LookupEndpoint may return it)")
+				o.Fail("C11", "left-node-treated-as-live", x)
+			}
 			f.unrch = false
 		case "exp":
 			delete(g.fold, id)
@@ -1064,7 +1071,33 @@ func (e *engine) Gen(r *rand.Rand, n int, tier string, w *bufio.Writer) {
 				if mode < 6 {
 					continue
 				}
-				switch r.Intn(6) {
+				switch r.Intn(7) {
+				case 6:
+					// a node that is unreachable at an observer leaves, the observer learns of it
+					// (directly or relayed), then the suspicion drops again: it must stay left
+					var obs []string
+					for _, m := range al {
+						if m != id {
+							obs = append(obs, m)
+						}
+					}
+					if len(obs) == 0 {
+						continue
+					}
+					ob := Pick(r, obs)
+					emit("join %s %s 1", Hx(ob), Hx(id)) // make sure the observer knows the node
+					emit("live %s %s", Hx(ob), Hx(id))
+					emit("leave %s", Hx(id))
+					if len(obs) > 1 && r.Intn(2) == 0 { // relayed through a third node
+						via := Pick(r, obs)
+						emit("leavestream %s %s", Hx(id), Hx(via))
+						emit("join %s %s 1", Hx(ob), Hx(via))
+					} else {
+						emit("leavestream %s %s", Hx(id), Hx(ob))
+					}
+					emit("live %s -", Hx(ob))
+					emit("live %s %s", Hx(ob), Hx(id))
+					emit("live %s -", Hx(ob))
 				case 0:
 					emit("leave %s", Hx(id))
 					// notify some peers as Gossip.Leave does
